@@ -23,7 +23,7 @@ CLAIMED = {
        "order, losses, quits and Close run against the real client; each SubscribeError is checked against the SUBACK sent for that request's "
        "identifier and every request must have returned after the closing epilogue.",
   design="6/C11", technique="Lean 4 proof (transaction-table lemmas) + differential correspondence with concurrent calls parked by the harness",
-  note="partial: requests are interleaved only where the harness can park a goroutine (lockWrite, conn.Write, the response wait); preemption between two statements of one call is not explored; startTx termination within its fuel (pigeonhole) is not proved"),
+  note="partial: requests are interleaved only where the harness can park a goroutine (lockWrite, conn.Write, the response wait); preemption between two statements of one call is not explored; the free-identifier search is proved to end within its fuel (C11_startTx_total)"),
  "C12": dict(
   text="Lean 4 theorems over Model.Sync for every interleaving and any number of concurrent Close/Disconnect calls: Online and Offline are "
        "never both released, after the semaphores are closed the client is offline for good (stable under every step), at most one closer is "
@@ -149,9 +149,9 @@ CLAIMED = {
   design="6/C08", technique="Lean 4 proof (induction over retry fuel and buffer vectors) + differential correspondence over exhaustive write policies",
   note="Lean kernel; axioms propext, Quot.sound; A-conn (Write accepts a prefix); vectored kernel writes not modelled"),
  "C09": dict(
-  text="Lean 4 theorems: the remaining-length encoding is decoded exactly in <= 4 bytes for every size up to 2^28-1; every PUBLISH the client composes (all levels, retain, any accepted topic, any payload within the limit) and the four acknowledgements decode through an independently written reference decoder to exactly the requested fields; the deny decision of stringCheck/topicCheck/publish/subscribe/unsubscribe is characterised declaratively in both directions (no valid argument refused). Model tied to the source by regenerated constants and by running stringCheck, publishPacket, Config.valid and newCONNREQ of the real package against the model and decoding every emitted packet with the Lean decoder.",
+  text="Lean 4 theorems: the remaining-length encoding is decoded exactly in <= 4 bytes for every size up to 2^28-1; every PUBLISH (all levels, retain, any accepted topic, any payload within the limit), every SUBSCRIBE and UNSUBSCRIBE (any accepted filter list, any maximum level), every CONNECT (any valid Config: will, user name, password, keep-alive, clean session) the client composes and the four acknowledgements decode through an independently written reference decoder to exactly the requested fields; the deny decision of stringCheck/topicCheck/publish/subscribe/unsubscribe is characterised declaratively in both directions (no valid argument refused). Model tied to the source by regenerated constants and by running stringCheck, publishPacket, Config.valid and newCONNREQ of the real package against the model and decoding every emitted packet with the Lean decoder.",
   design="6/C09", technique="Lean 4 proof (round-trip laws, decision logic) + differential correspondence + reference decoder on emitted bytes",
-  note="Lean kernel; axioms propext, Classical.choice, Quot.sound; utf8.ValidString modelled (compared every run); CONNECT/SUBSCRIBE round-trip theorems pending, those packets are checked by decoding implementation output"),
+  note="Lean kernel; axioms propext, Classical.choice, Quot.sound; utf8.ValidString modelled (compared every run); denied requests are also checked on the real client to leave no trace (no write, no record, no transaction slot)"),
  "C15": dict(
   text="Lean 4 theorems over the model of encodeValue/decodeValue (FNV-1a over BitVec 32): exact round-trip for every packet and "
        "every 64-bit sequence number, documented layout, rejection of every value shorter than 12 bytes, and detection of every "
